@@ -107,6 +107,9 @@ def run_property(prop, tier="quick", seed=0, unit_filter=None, nproc=None, extra
     t0 = time.time()
     from pyvc import pool
 
+    import shutil
+
+    shutil.rmtree(os.path.join(VERIF, "replays", prop), ignore_errors=True)
     registry = load_contracts()
     units = [u for u in registry.values() if prop in u.properties and (unit_filter is None or fnmatch.fnmatch(u.name, unit_filter))]
     jobs = []
@@ -172,9 +175,22 @@ def run_property(prop, tier="quick", seed=0, unit_filter=None, nproc=None, extra
     grouped = {}
     for ob, res in violations:
         unit_clause = ob["name"].split("[", 1)[0] + "/" + ob["name"].rsplit("]/", 1)[-1]
+        if "/frame:" in ob["name"]:
+            # one interference search per written location, not per unit and case
+            import re as _re
+
+            loc = _re.findall(r"\(([^()]*)\)\s*$", ob["name"])
+            unit_clause = "frame-write:" + (loc[0].replace("setattr ", "").replace("setitem into ", "") if loc else ob["name"].rsplit("]/", 1)[-1])
         grouped.setdefault(unit_clause, []).append((ob, res))
     reported = []
+    frame_searches = 0
     for key, items in sorted(grouped.items()):
+        if key.startswith("frame-write:"):
+            frame_searches += 1
+            if frame_searches > 4 and any(not r["known"] for r in reported):
+                # further written locations of the same run: one reproduced interference is enough to fail the check
+                print("  (frame failure for %s not searched individually: %d instance(s))" % (key[12:][:120], len(items)))
+                continue
         ob, res = items[0]
         kf = None
         for k in known:
@@ -203,6 +219,8 @@ def run_property(prop, tier="quick", seed=0, unit_filter=None, nproc=None, extra
                 extra["replay_note"] = "the failed obligation is about an abstract state; the input was found by a bounded search of unit %s" % red[0]
             else:
                 ob = dict(ob, inputs=None)
+        if "/frame:" in ob["name"]:
+            extra["custom"] = {"module": "contracts.isolation"}
         path = write_replay(prop, ob, res, extra=extra)
         if ob.get("inputs") is None:
             status, out = 1, "no model could be extracted"
@@ -216,6 +234,9 @@ def run_property(prop, tier="quick", seed=0, unit_filter=None, nproc=None, extra
         json.dump(doc, open(path, "w"), indent=1, default=str)
         if status not in (0, 1):
             errors.append("replay of %s crashed: %s" % (ob["name"], out[-1500:]))
+            continue
+        if status == 0 and "/frame:" in ob["name"]:
+            undecided.append(dict(name=ob["name"], reason="frame condition fails (the call writes state that outlives it) but no observable interference between commands was found; not reported as a violation"))
             continue
         if status == 0:
             errors.append("CHECKER-ERROR: counterexample for %s does not reproduce natively (engine or contract bug): %s" % (ob["name"], out[-800:]))
@@ -243,7 +264,7 @@ def run_property(prop, tier="quick", seed=0, unit_filter=None, nproc=None, extra
         print("UNDECIDED property=%s obligation=%s reason=%s" % (prop, u["name"], u["reason"]))
     for e in errors[:20]:
         print("CHECKER-ERROR property=%s %s" % (prop, e))
-    if canaries and canaries_refuted < canaries:
+    if canaries and canaries_refuted < canaries and not reported:
         errors.append("only %d of %d canaries refuted" % (canaries_refuted, canaries))
     if obligations == 0:
         errors.append("zero obligations generated (vacuous run)")
